@@ -42,6 +42,7 @@ pub fn eval_case(case: &Case) -> Result<Vec<(Tri, reference::RSet, bool)>, Outco
     };
     let ev = Evaluator::new(&refrule, EvalOpts::default());
     let mut out = vec![];
+    NJ_REASONS.with(|r| r.borrow_mut().clear());
     for (i, doc) in case.docs.iter().enumerate() {
         let pos = match engine::matches(&rule, doc) {
             Ok(b) => b,
@@ -67,7 +68,18 @@ pub fn eval_case(case: &Case) -> Result<Vec<(Tri, reference::RSet, bool)>, Outco
         }
         out.push((tri, set, widened));
     }
+    NJ_REASONS.with(|r| {
+        let mut r = r.borrow_mut();
+        for (k, v) in ev.reasons.borrow().iter() {
+            *r.entry(k).or_insert(0) += v;
+        }
+    });
     Ok(out)
+}
+
+thread_local! {
+    /// reasons of the not-judged sub-results of the last eval_case on this thread
+    pub static NJ_REASONS: std::cell::RefCell<std::collections::BTreeMap<&'static str, u32>> = Default::default();
 }
 
 pub fn judge(case: &Case) -> Outcome {
@@ -100,6 +112,20 @@ pub fn judge(case: &Case) -> Outcome {
             labels.push("reference_result_exact");
         }
     }
+    NJ_REASONS.with(|r| {
+        for (k, _) in r.borrow().iter() {
+            labels.push(match *k {
+                "K3 shape" => "rule_not_judged_in_part:K3 shape",
+                "K7 shape" => "rule_not_judged_in_part:K7 shape",
+                "quantified key list on array field" => "rule_not_judged_in_part:quantified key list on array field",
+                "quantifier over single-entry identifier with list value" => {
+                    "rule_not_judged_in_part:quantifier over single-entry identifier with list value"
+                }
+                "key is not a well-formed path" => "rule_not_judged_in_part:key is not a well-formed path",
+                _ => "rule_not_judged_in_part:other",
+            });
+        }
+    });
     let varied = seen.iter().filter(|s| **s).count() >= 2;
     Outcome::Pass {
         nontrivial: if varied { Some(hash_str(&case.rules[0])) } else { None },
